@@ -90,6 +90,7 @@ def run(chk):
     chk.rule('C04-R2', 'aux: lagr_idx / lagr_pos / tagged / density / pid bit maps and affine parts equal the layout', 9)
     chk.rule('C04-R3', 'module mask constants equal the documented bit ranges', 5)
     chk.rule('C04-R6', 'each output is written only under its own "is not None" guard from the input word and constants', 15)
+    chk.rule('C04-R8', 'wrapper scalars: ppd is rounded to the nearest integer (guarded by isclose), box/ppd defaults, kernel receives (packed, box, ppd, float_dtype, outputs)', 3)
     chk.rule('C04-R7', 'wrappers: allocation tables agree, pos/vel handled symmetrically, dtype assertions present', 4)
     chk.assume('numba promotes int32 op uint32 to int64 (sign-extended), so >> is arithmetic and & acts on the sign-extended value')
     chk.assume('float rounding is not modelled: "within half a quantum" follows analytically from the exact integer decode and the scale')
@@ -187,6 +188,40 @@ def run(chk):
             chk.refuted('C04-R2', BP, '_unpack_pids', f'{n[0]}' + (f'[:,{n[1]}]' if n[1] is not None else ''), 'field is never stored', node=fn)
 
     wrappers(chk)
+    scalars(chk)
+
+
+def scalars(chk):
+    """R8: the particles-per-dimension used for lagr_pos is the integer nearest to the supplied value."""
+    src = chk.src
+    fn = src.func(BP, 'unpack_pids')
+    blocks = [n for n in fn.body if isinstance(n, ast.If) and unparse(n.test) == 'ppd is not None']
+    ok = False
+    detail = ''
+    if len(blocks) == 1:
+        b = blocks[0]
+        guard = [x for x in b.body if isinstance(x, ast.If) and 'np.isclose(ppd, int(round(ppd)))' in unparse(x.test) and unparse(x.test).startswith('not')
+                 and any(isinstance(y, ast.Raise) for y in x.body)]
+        asg = [unparse(x.value) for x in b.body if isinstance(x, ast.Assign) and unparse(x.targets[0]) == 'ppd']
+        els = [unparse(x) for x in b.orelse]
+        ok = len(guard) == 1 and asg == ['int(round(ppd))'] and els == ['ppd = 1']
+        detail = f'ppd = {asg}; guard present={len(guard) == 1}; default {els}'
+    chk.check(ok, 'C04-R8', BP, 'unpack_pids', 'ppd := int(round(ppd)) after the isclose guard', detail,
+              f'{detail}: a near-integer float ppd (e.g. N**(1/3) = 11.999999999999998) must decode with the nearest integer, otherwise lagr_pos is off by up to one lattice spacing',
+              node=blocks[0] if blocks else fn)
+    req = [n for n in fn.body if isinstance(n, ast.If) and unparse(n.test) == 'lagr_pos is not False']
+    okreq = len(req) == 1 and sum(1 for x in ast.walk(req[0]) if isinstance(x, ast.Raise)) == 2
+    bx = [n for n in fn.body if isinstance(n, ast.If) and unparse(n.test) == 'box is None']
+    okbox = len(bx) == 1 and [unparse(x) for x in bx[0].body] == ['box = float_dtype(1.0)']
+    chk.check(okreq and okbox, 'C04-R8', BP, 'unpack_pids', 'lagr_pos requires box and ppd; box defaults to 1 only when unused', '',
+              f'requirement check ok={okreq}; box default ok={okbox}', node=fn, nontrivial=False)
+    calls = [n for n in walk_no_nested(fn) if isinstance(n, ast.Call) and dotted(n.func) == '_unpack_pids']
+    okc = len(calls) == 1 and [unparse(a) for a in calls[0].args] == ['packed', 'box', 'ppd'] and \
+        {k.arg: unparse(k.value) for k in calls[0].keywords} == {'float_dtype': 'float_dtype', None: 'arr'}
+    rets = [n for n in walk_no_nested(fn) if isinstance(n, ast.Return)]
+    okc = okc and len(rets) == 1 and unparse(rets[0].value) == 'arr'
+    chk.check(okc, 'C04-R8', BP, 'unpack_pids', 'kernel call (packed, box, ppd, float_dtype=float_dtype, **arr); returns the filled dict', '',
+              f'kernel called as {unparse(calls[0]) if calls else None}', node=calls[0] if calls else fn)
 
 
 def aux_expect(s, inp, boxp, ppdp):
